@@ -427,6 +427,24 @@ def encode_number(row, v):
     return out[::-1]
 
 
+WRITABLE_TYPES = ("RAM_RW", "NVM_RW", "NVM_RW_L", "NVM_RW_P")
+
+
+def rows_of_bank(bankobj):
+    """Rows of one bank object, in location order (for C09 / C10 models)."""
+    return sorted((r for r in ROWS if r["bankobj"] == bankobj), key=lambda r: r["first"])
+
+
+def is_writable(row):
+    """True if every location of the value can be written (IEC 62386-102 9.10: RW types)."""
+    return all(t in WRITABLE_TYPES for t in row["memtype"])
+
+
+def needs_unlock(row):
+    """True if some location is lockable: the lock byte (0x02) must hold 0x55 while writing."""
+    return any(t == "NVM_RW_L" for t in row["memtype"])
+
+
 def trust_counts():
     ind = sum(1 for r in ROWS if r["trust"] == "independent")
     return {"rows": len(ROWS), "independent": ind, "pinned": len(ROWS) - ind,
